@@ -7,26 +7,26 @@ TRUST = ("trusted base: CPython 3.12, networkx as container, HiGHS 1.15 as the l
          "by the z3 reference on small instances), z3 5.1 exact arithmetic, the harness's own reference models (fpverif/ref.py)")
 
 ADDENDA = {
-    "C01": " Later widenings: supersets longer than k, isolated nodes in edge-weighted graphs, rings without natural source/sink, percentile arguments. Fourth-round widenings: tuple / set containers (also empty) for additional starts / ends; 'non-negative' is taken literally for weights and slacks.",
+    "C01": " Later widenings: supersets longer than k, isolated nodes in edge-weighted graphs, rings without natural source/sink, percentile arguments. Fourth-round widenings: tuple / set containers (also empty) for additional starts / ends; 'non-negative' is taken literally for weights and slacks. Fifth-round widening: the non-default search helpers (guessed weights, min-gen-set / scanning lower bounds) of the minimising classes in the route workload; node-weighted graphs whose edges carry a same-named attribute.",
     "C02": " Later widenings: integer-valued flows with weight_type=float (type check strict for both types), zero-flow elements forced by constraints. Fourth-round widening: integer weight type on half-integral conserved flows.",
-    "C03": " Later widenings: crossing constraints (all in/out pairs of a node), constraints forcing more paths than edges, length coverage with non-integral lengths and with a length attribute under count coverage, scanning windows of ignored edges, magnitude-shifted instances (1e6, 1e9, 2^-20; disagreements keyed by magnitude), 60 s solver limit. Third-round widenings: the options object of every lower-bound setting re-used for a later single-path instance; presolve classification of magnitude-shifted instances. Fourth-round widenings: small stated values on ignored elements (ignored detours), presolve classification and the 2^-20 magnitude key.",
-    "C04": " Later widenings: constrained hubs (optimum > #edges), factors 1e4/1e6, classification of solver-presolve defects by re-solving with presolve off. Third-round widenings: hub-on-a-cycle family, crossing subset constraints, the returned walks checked against every subset constraint. Fourth-round widening: non-whole scale factors on single planted walks.",
-    "C05": " Later widenings: 'spine' and 'decimal hub' flow families (zero-excess windows, decimal floats), length coverage with k below the cover number, min-gen-set options on decimal float flows, node-weighted rings with additional start/end nodes, classification of solver-presolve defects. Third-round widening: the options object of every MinFlowDecomp setting re-used for a later single-path instance.",
-    "C06": " Later widenings: trusted sets restricted to coverable edges, graphs with parts on no source-to-sink walk, the DAG models' own safe lists incl. zero-length constraint edges, inexact flow intervals. Third-round widening: DAG models with additional start / end nodes (and kMinPathError) in the safe-list judgement. Fourth-round widening: queued bound updates (fix_via_bounds) of constructed models are judged.",
+    "C03": " Later widenings: crossing constraints (all in/out pairs of a node), constraints forcing more paths than edges, length coverage with non-integral lengths and with a length attribute under count coverage, scanning windows of ignored edges, magnitude-shifted instances (1e6, 1e9, 2^-20; disagreements keyed by magnitude), 60 s solver limit. Third-round widenings: the options object of every lower-bound setting re-used for a later single-path instance; presolve classification of magnitude-shifted instances. Fourth-round widenings: small stated values on ignored elements (ignored detours), presolve classification and the 2^-20 magnitude key. Fifth-round widenings: 'ignored-tail' family (a whole level cut of ignored edges with other values) under the partition-constraint options; known key for the min-gen-set lower bound at magnitude 1e6.",
+    "C04": " Later widenings: constrained hubs (optimum > #edges), factors 1e4/1e6, classification of solver-presolve defects by re-solving with presolve off. Third-round widenings: hub-on-a-cycle family, crossing subset constraints, the returned walks checked against every subset constraint. Fourth-round widening: non-whole scale factors on single planted walks. Fifth-round widenings: repeated entries in subset constraints, a corpus instance whose guessed-weights decomposition is not minimum.",
+    "C05": " Later widenings: 'spine' and 'decimal hub' flow families (zero-excess windows, decimal floats), length coverage with k below the cover number, min-gen-set options on decimal float flows, node-weighted rings with additional start/end nodes, classification of solver-presolve defects. Third-round widening: the options object of every MinFlowDecomp setting re-used for a later single-path instance. Fifth-round widenings: all combinations of the safe-sequence sub-switches while it is on, acyclic inputs to the walk models, length-coverage cover corpus.",
+    "C06": " Later widenings: trusted sets restricted to coverable edges, graphs with parts on no source-to-sink walk, the DAG models' own safe lists incl. zero-length constraint edges, inexact flow intervals. Third-round widening: DAG models with additional start / end nodes (and kMinPathError) in the safe-list judgement. Fourth-round widening: queued bound updates (fix_via_bounds) of constructed models are judged. Fifth-round widenings: cover models judged against the caller's non-ignored edges (also with additional starts/ends), 'exactly once' entries judged for soundness, doubled-edge corpus.",
     "C07": " Later widenings: trusted edges (explicit / percentile) with a validity check of the trust assumption, supersets exceeding every flow ('hourglass'), classification of solver-presolve defects and of the product helper's bit width. Third-round widening: integer weight type on fractional data (corpus; value disagreements keyed as a known input class). Fourth-round widening: flows stored as (unsigned) numpy integers.",
-    "C08": " Later widenings: exact covering number on the SCC multigraph, bundles of parallel inter-SCC edges with k=None, path-length factors < 1, supersets exceeding every flow. Third-round widenings: 'dip' chains with scaled-down over-explained edges, integer weight type on fractional data. Fourth-round widenings: path-length factors below 1/2 and 0, decimal factors read as decimal fractions by the reference.",
+    "C08": " Later widenings: exact covering number on the SCC multigraph, bundles of parallel inter-SCC edges with k=None, path-length factors < 1, supersets exceeding every flow. Third-round widenings: 'dip' chains with scaled-down over-explained edges, integer weight type on fractional data. Fourth-round widenings: path-length factors below 1/2 and 0, decimal factors read as decimal fractions by the reference. Fifth-round widening: explicit length attribute (whole lengths incl. 0) with and without path-length factors.",
     "C09": " Later widenings: width histories with additional starts/ends, interleaved convention-free queries and duplicate ignore entries, length-coverage cases, constrained hub, a 1100-node path. Fourth-round widenings: numpy-typed lengths, a dense block behind a hub edge, presolve classification (key C09/solver-presolve-defect/*).",
-    "C10": " Later widenings: percentile-based ignoring vs the explicit list, trusted-edge variants with an outlier detour and tight k, cover models judged for still covering everything, non-integral lengths, length attribute under count coverage. Third-round widenings: crossing constraints (k = planted + 1) and a 'waist' shape with the greedy shortcut on. Fourth-round widening: one node as additional start and end compared with 'start only' / 'end only'.",
-    "C11": " Later widenings: node-length coverage corpus for the cover models, node-weighted graphs whose edges carry an attribute of the same name, percentile ignoring, all three reported numbers of MinErrorFlow.",
-    "C12": " Later widenings: unsorted ranges of the piecewise-constant helper, scalar creation bounds of numpy / Fraction types. Third-round widening: one variable in both queues (fix v, lower bound v) before one optimize. Fourth-round widenings: custom time-out route of optimize(); returned values must satisfy the constraints and reproduce this run's optimum.",
-    "C13": " Later widenings: re-solve histories (solve, fault, solve), models restricted to an infeasible weights superset. Third-round widenings: kFlowDecomp with default options for every k (getters before / after solve), guessed-weights pre-step holding more paths than the lower bound. Fourth-round widenings: re-solve histories for the searches over k, fault-then-clean-re-solve histories (a time-limited clean run gives no verdict).",
-    "C14": " Later widenings: nodes of a str subclass whose str() differs from the node; assignments keyed by the nodes themselves (as the models do).",
-    "C15": " Later widenings: duplicate subsets with distinct weights, classification of solver-presolve defects. Third-round widening: integer instances in decimal / non-representable float units. Fourth-round widening: empty subsets in set-cover families.",
+    "C10": " Later widenings: percentile-based ignoring vs the explicit list, trusted-edge variants with an outlier detour and tight k, cover models judged for still covering everything, non-integral lengths, length attribute under count coverage. Third-round widenings: crossing constraints (k = planted + 1) and a 'waist' shape with the greedy shortcut on. Fourth-round widening: one node as additional start and end compared with 'start only' / 'end only'. Fifth-round widening: repeated entries in subset constraints; no feasibility verdict for error models on all-zero weights.",
+    "C11": " Later widenings: node-length coverage corpus for the cover models, node-weighted graphs whose edges carry an attribute of the same name, percentile ignoring, all three reported numbers of MinErrorFlow. Fifth-round widening: MinFlowDecomp with additional starts/ends compared with a hand-built expansion (helper source/sink joined by ignored edges).",
+    "C12": " Later widenings: unsorted ranges of the piecewise-constant helper, scalar creation bounds of numpy / Fraction types. Third-round widening: one variable in both queues (fix v, lower bound v) before one optimize. Fourth-round widenings: custom time-out route of optimize(); returned values must satisfy the constraints and reproduce this run's optimum. Fifth-round widenings: objective expressions with repeated variables; lower-bound requests below the bound in force and later batches after optimize().",
+    "C13": " Later widenings: re-solve histories (solve, fault, solve), models restricted to an infeasible weights superset. Third-round widenings: kFlowDecomp with default options for every k (getters before / after solve), guessed-weights pre-step holding more paths than the lower bound. Fourth-round widenings: re-solve histories for the searches over k, fault-then-clean-re-solve histories (a time-limited clean run gives no verdict). Fifth-round widening: 'edited' histories (model changed through its solver object after a solve, then solved again).",
+    "C14": " Later widenings: nodes of a str subclass whose str() differs from the node; assignments keyed by the nodes themselves (as the models do). Fifth-round widenings: shuffled edge orders and dense self-loop graphs; walks of node-weighted graphs condensed by NodeExpandedDiGraph.get_condensed_paths.",
+    "C15": " Later widenings: duplicate subsets with distinct weights, classification of solver-presolve defects. Third-round widening: integer instances in decimal / non-representable float units. Fourth-round widening: empty subsets in set-cover families. Fifth-round widening: fine partition constraints (three or more parts).",
     "C16": " Later widenings: numpy-typed weights, a self-loop as the only incoming / outgoing edge of a node, float tolerance for phase-2 values. Fourth-round widenings: small numpy integers, two-decimal cyclic instances, literal non-negativity, presolve classification (key C16/solver-presolve-defect/*).",
     "C17": " Later widenings: graphs with dead parts, the global source/sink themselves as query arguments, weights on source/sink edges. Third-round widening: bottleneck peeling of inexact float flows (units 0.1, 1/3, 0.7). Fourth-round widening: decimal-fraction antichain weights (known finding).",
-    "C18": " Later widenings: a model constructed first and solved last (queued bound updates), two-phase MinErrorFlow, noisy weights, user subclasses of the abstract classes built with default arguments, option pools with scanning window / trusted sets. Third-round widening: options that only MinFlowDecomp reads force a MinFlowDecomp step on an exact flow; a repeated solve that runs into the time limit gives no verdict. Fourth-round widenings: thread-count histories, same graph with new flows (also re-solve of the same model), caller edits of argument objects after construction, get_solution variants interleaved, two-phase MinErrorFlow re-solves.",
-    "C19": " Later widenings: 31 violation kinds (k<=0 with a weights superset, bool / float-subclass weight types, empty and list-edge constraints also in node mode), edit histories on one graph object, explicit None option dicts, order-dependent float conservation, all-zero flows. Third-round widenings: numpy-typed flow values in the converse cases, invalid coverage by count next to a valid coverage by length, invalid coverage-by-length values. Fourth-round widenings: 20 further kinds (non-list constraint entries, two-character strings, non-finite weights, coverage without constraints, coverage by length, zero-side and tiny relative imbalances, NaN scaling, superset entries, edge tuples as start / end), MinErrorFlow auxiliary cases.",
-    "C20": " Later widenings: vertex-count lines that disagree with the graph (incl. 0), blank lines inside headers, header texts starting with S / digits, twin blocks, graphs without source or sink. Third-round widening: an edge line repeated verbatim. Fourth-round widenings: header that lost its '#', absent first / middle constraint node, blocks without edge lines carry n / m / w.",
+    "C18": " Later widenings: a model constructed first and solved last (queued bound updates), two-phase MinErrorFlow, noisy weights, user subclasses of the abstract classes built with default arguments, option pools with scanning window / trusted sets. Third-round widening: options that only MinFlowDecomp reads force a MinFlowDecomp step on an exact flow; a repeated solve that runs into the time limit gives no verdict. Fourth-round widenings: thread-count histories, same graph with new flows (also re-solve of the same model), caller edits of argument objects after construction, get_solution variants interleaved, two-phase MinErrorFlow re-solves. Fifth-round widenings: numpy-typed caller graphs, 'lateresolve' histories (re-solve later than the time limit), time-limited history steps give no verdict.",
+    "C19": " Later widenings: 31 violation kinds (k<=0 with a weights superset, bool / float-subclass weight types, empty and list-edge constraints also in node mode), edit histories on one graph object, explicit None option dicts, order-dependent float conservation, all-zero flows. Third-round widenings: numpy-typed flow values in the converse cases, invalid coverage by count next to a valid coverage by length, invalid coverage-by-length values. Fourth-round widenings: 20 further kinds (non-list constraint entries, two-character strings, non-finite weights, coverage without constraints, coverage by length, zero-side and tiny relative imbalances, NaN scaling, superset entries, edge tuples as start / end), MinErrorFlow auxiliary cases. Fifth-round widening: an isolated non-string node.",
+    "C20": " Later widenings: vertex-count lines that disagree with the graph (incl. 0), blank lines inside headers, header texts starting with S / digits, twin blocks, graphs without source or sink. Third-round widening: an edge line repeated verbatim. Fourth-round widenings: header that lost its '#', absent first / middle constraint node, blocks without edge lines carry n / m / w. Fifth-round widenings: count lines with extra tokens, lost count line, blanked edge line under a constraint.",
 }
 
 CHECKS = {
